@@ -657,5 +657,301 @@ theorem segment_exact {seq L : Nat} {P d0 : Bytes} {T : List Bytes} (ok : SegOK 
       simp only [List.getElem?_cons_succ, hist, F, List.take_succ_cons, forall_cons_iff]
       exact specOuts_get T P _ rest j hj'
 
+
+/-! ### the shape of `framesPad` -/
+
+theorem chunks7_nil : chunks 7 ([] : Bytes) = [] := by rw [chunks]
+
+theorem chunks7_ne_nil (l : Bytes) (hl : l ≠ []) : chunks 7 l = l.take 7 :: chunks 7 (l.drop 7) := by
+  cases l with
+  | nil => exact absurd rfl hl
+  | cons x xs => rw [chunks]; simp
+
+theorem chunks7_spec : ∀ (n : Nat) (l : Bytes), l.length = n → l ≠ [] →
+    ∃ init last, chunks 7 l = init ++ [last] ∧ (∀ c ∈ init, c.length = 7) ∧
+      1 ≤ last.length ∧ last.length ≤ 7 ∧ init.flatten ++ last = l := by
+  intro n
+  induction n using Nat.strongRecOn with
+  | ind n ih =>
+    intro l hn hl
+    have hpos : 0 < l.length := List.length_pos_iff.2 hl
+    rw [chunks7_ne_nil l hl]
+    by_cases hle : l.length ≤ 7
+    · refine ⟨[], l, ?_, by simp, hpos, hle, by simp⟩
+      have h1 : l.drop 7 = [] := List.drop_eq_nil_of_le hle
+      rw [h1, chunks7_nil, List.take_of_length_le hle]
+      rfl
+    · have hd : l.drop 7 ≠ [] := by
+        intro e
+        have := congrArg List.length e
+        simp at this
+        omega
+      obtain ⟨init, last, e, h7, h1, h2, hfl⟩ :=
+        ih (l.drop 7).length (by simp; omega) (l.drop 7) rfl hd
+      refine ⟨l.take 7 :: init, last, by rw [e]; rfl, ?_, h1, h2, ?_⟩
+      · intro c hc
+        rcases List.mem_cons.1 hc with rfl | hc
+        · simp; omega
+        · exact h7 c hc
+      · simp only [List.flatten_cons, List.append_assoc, hfl, List.take_append_drop]
+
+theorem sum_len_seven (init : List Bytes) (h : ∀ c ∈ init, c.length = 7) :
+    (init.map List.length).sum = 7 * init.length := by
+  induction init with
+  | nil => rfl
+  | cons c cs ih =>
+    have h1 := h c (by simp)
+    have h2 := ih (fun c hc => h c (by simp [hc]))
+    simp only [List.map_cons, List.sum_cons, List.length_cons, h1, h2]
+    omega
+
+theorem restFrames_append (seq i : Nat) (a b : List Bytes) :
+    restFrames seq i (a ++ b) = restFrames seq i a ++ restFrames seq (i + a.length) b := by
+  induction a generalizing i with
+  | nil => simp [restFrames]
+  | cons c cs ih =>
+    simp only [List.cons_append, restFrames, ih, List.length_cons]
+    have : i + 1 + cs.length = i + (cs.length + 1) := by omega
+    rw [this]
+
+theorem restFrames_length (seq i : Nat) (ds : List Bytes) :
+    (restFrames seq i ds).length = ds.length := by
+  induction ds generalizing i with
+  | nil => rfl
+  | cons c cs ih => simp [restFrames, ih]
+
+theorem mem_restFrames {seq i : Nat} {ds : List Bytes} {f : Bytes} (h : f ∈ restFrames seq i ds) :
+    ∃ j d, f = (seq * 32 + (i + j)) :: d ∧ j < ds.length ∧ d ∈ ds := by
+  induction ds generalizing i with
+  | nil => cases h
+  | cons c cs ih =>
+    simp only [restFrames, List.mem_cons] at h
+    rcases h with rfl | h
+    · exact ⟨0, c, by simp, by simp, by simp⟩
+    · obtain ⟨j, d, e, hj, hd⟩ := ih h
+      refine ⟨j + 1, d, ?_, by simp; omega, by simp [hd]⟩
+      rw [e]
+      have : i + 1 + j = i + (j + 1) := by omega
+      rw [this]
+
+theorem restFrames_tail (seq i : Nat) (ds : List Bytes) :
+    (restFrames seq i ds).map List.tail = ds := by
+  induction ds generalizing i with
+  | nil => rfl
+  | cons c cs ih => simp [restFrames, ih]
+
+theorem restFrames_dlen (seq i : Nat) (ds : List Bytes) :
+    (restFrames seq i ds).map dlen = ds.map List.length := by
+  induction ds generalizing i with
+  | nil => rfl
+  | cons c cs ih => simp [restFrames, ih, dlen]
+
+theorem restFrames_sorted (seq i : Nat) (ds : List Bytes) (h : i + ds.length ≤ 32) :
+    (restFrames seq i ds).Pairwise (fun a b => key a < key b) := by
+  induction ds generalizing i with
+  | nil => simp [restFrames]
+  | cons c cs ih =>
+    simp only [restFrames, List.pairwise_cons]
+    simp only [List.length_cons] at h
+    refine ⟨?_, ih (i + 1) (by omega)⟩
+    intro b hb
+    obtain ⟨j, d, rfl, hj, _⟩ := mem_restFrames hb
+    simp only [key, List.headD_cons]
+    omega
+
+theorem framesPad_of_concat {seq : Nat} {P : Bytes} {init : List Bytes} {a : Bytes}
+    (h : frames seq P = init ++ [a]) (pad : Bytes) : framesPad seq P pad = init ++ [a ++ pad] := by
+  unfold framesPad
+  rw [h]
+  simp
+
+theorem framesPad_short (seq : Nat) (P pad : Bytes) (h : P.length ≤ 6) :
+    framesPad seq P pad = [seq * 32 :: P.length :: (P ++ pad)] := by
+  have h1 : P.drop 6 = [] := List.drop_eq_nil_of_le h
+  have h2 : P.take 6 = P := List.take_of_length_le h
+  simp [framesPad, frames, h1, h2, chunks7_nil, restFrames]
+
+theorem framesPad_long (seq : Nat) (P : Bytes) (h : 6 < P.length) :
+    ∃ init last, (∀ c ∈ init, c.length = 7) ∧ 1 ≤ last.length ∧ last.length ≤ 7 ∧
+      init.flatten ++ last = P.drop 6 ∧
+      ∀ pad, framesPad seq P pad =
+        (seq * 32 :: P.length :: P.take 6) :: restFrames seq 1 (init ++ [last ++ pad]) := by
+  have hd : P.drop 6 ≠ [] := by
+    intro e
+    have := congrArg List.length e
+    simp at this
+    omega
+  obtain ⟨init, last, e, h7, h1, h2, hfl⟩ := chunks7_spec _ (P.drop 6) rfl hd
+  refine ⟨init, last, h7, h1, h2, hfl, ?_⟩
+  intro pad
+  have hf : frames seq P = ((seq * 32 :: P.length :: P.take 6) :: restFrames seq 1 init) ++
+      [(seq * 32 + (1 + init.length)) :: last] := by
+    simp [frames, e, restFrames_append, restFrames]
+  rw [framesPad_of_concat hf]
+  simp [restFrames_append, restFrames]
+
+theorem framesPad_seg (seq : Nat) (P pad : Bytes) (hs : seq < 8) (hP : P.length ≤ 223)
+    (hpad : ∀ f ∈ framesPad seq P pad, f.length ≤ 8) :
+    ∃ d0 T, framesPad seq P pad = (seq * 32 :: P.length :: d0) :: T ∧
+      SegOK seq P.length P d0 T := by
+  by_cases h : P.length ≤ 6
+  · refine ⟨P ++ pad, [], framesPad_short seq P pad h, ?_⟩
+    constructor
+    · intro f hf; cases hf
+    · simp
+    · simp
+    · intro f hf; cases hf
+    · simp
+  · have h6 : 6 < P.length := by omega
+    obtain ⟨init, last, h7, h1, h2, hfl, hF⟩ := framesPad_long seq P h6
+    refine ⟨P.take 6, restFrames seq 1 (init ++ [last ++ pad]), hF pad, ?_⟩
+    have hsum := sum_len_seven init h7
+    have hlen : 7 * init.length + last.length + 6 = P.length := by
+      have := congrArg List.length hfl
+      simp only [List.length_append, List.length_flatten, hsum, List.length_drop] at this
+      omega
+    have hlast : 1 + (last.length + pad.length) ≤ 8 := by
+      have := hpad ((seq * 32 + (1 + init.length)) :: (last ++ pad)) (by
+        rw [hF pad, restFrames_append]
+        simp [restFrames])
+      simpa [Nat.add_comm] using this
+    have hcnt : (init ++ [last ++ pad]).length ≤ 31 := by
+      simp only [List.length_append, List.length_cons, List.length_nil]
+      omega
+    have htot : ((restFrames seq 1 (init ++ [last ++ pad])).map dlen).sum =
+        7 * init.length + (last.length + pad.length) := by
+      rw [restFrames_dlen]
+      simp [hsum]
+    have ht6 : (P.take 6).length = 6 := by simp; omega
+    constructor
+    · intro f hf
+      obtain ⟨j, d, rfl, hj, _⟩ := mem_restFrames hf
+      exact ⟨_, d, rfl, by omega, by omega⟩
+    · exact restFrames_sorted seq 1 _ (by omega)
+    · rw [htot, ht6]; omega
+    · intro f hf
+      obtain ⟨j, d, rfl, hj, hd⟩ := mem_restFrames hf
+      rw [htot, ht6]
+      simp only [dlen, List.tail_cons]
+      rcases List.mem_append.1 hd with hd | hd
+      · have := h7 d hd; omega
+      · have : d = last ++ pad := by simpa using hd
+        subst this
+        simp only [List.length_append]
+        omega
+    · rw [restFrames_tail]
+      have : P.take 6 ++ (init ++ [last ++ pad]).flatten = P ++ pad := by
+        simp only [List.flatten_append, List.flatten_cons, List.flatten_nil, List.append_nil]
+        rw [← List.append_assoc init.flatten, hfl, ← List.append_assoc, List.take_append_drop]
+      rw [this]
+      simp
+
+
+theorem head!_cons (a : Bytes) (l : List Bytes) : (a :: l).head! = a := rfl
+
+
+/-! ### all frames in order (padding independence) -/
+
+theorem specOuts_inorder (T : List Bytes) (P head : Bytes) (hnd : T.Nodup) (hh : head ∉ T) :
+    ∀ (T2 T1 : List Bytes), T = T1 ++ T2 → T2 ≠ [] →
+      specOuts T P (head :: T1) T2 =
+        List.replicate (T2.length - 1) Out.stored ++ [Out.complete P] := by
+  intro T2
+  induction T2 with
+  | nil => intro T1 _ h; exact absurd rfl h
+  | cons f fs ih =>
+    intro T1 hT _
+    have hnd' := hnd
+    rw [hT, List.nodup_append] at hnd'
+    obtain ⟨_, h2, h3⟩ := hnd'
+    rw [List.nodup_cons] at h2
+    have hfT : f ∈ T := by rw [hT]; simp
+    have hf1 : f ∉ T1 := fun h => h3 f h f (by simp) rfl
+    have hfh : f ≠ head := fun e => hh (e ▸ hfT)
+    have hfp : f ∉ head :: T1 := by simp [hfh, hf1]
+    have hns : ¬ allSeen T (head :: T1) := fun h => hfp (h f hfT)
+    have hT' : T = (T1 ++ [f]) ++ fs := by rw [hT]; simp
+    simp only [specOuts, specOut, hns, if_false, hfT, hfp, not_false_eq_true, and_self, if_true]
+    cases fs with
+    | nil =>
+      have hall : allSeen T (head :: (T1 ++ [f])) := by
+        intro g hg
+        rw [hT] at hg
+        rcases List.mem_append.1 hg with hg | hg
+        · simp [hg]
+        · have : g = f := by simpa using hg
+          simp [this]
+      simp [hall, specOuts]
+    | cons g gs =>
+      have hgT : g ∈ T := by rw [hT]; simp
+      have hall : ¬ allSeen T (head :: (T1 ++ [f])) := by
+        intro h
+        have hg := h g hgT
+        have hgh : g ≠ head := fun e => hh (e ▸ hgT)
+        have hg1 : g ∉ T1 := fun h => h3 g h g (by simp) rfl
+        have hgf : g ≠ f := fun e => h2.1 (by simp [← e])
+        simp [hgh, hg1, hgf] at hg
+      have := ih (T1 ++ [f]) hT' (by simp)
+      simp only [List.cons_append] at this ⊢
+      rw [if_neg hall, this]
+      simp [List.replicate_succ]
+
+theorem segment_inorder {seq L : Nat} {P d0 : Bytes} {T : List Bytes} (ok : SegOK seq L P d0 T)
+    (hs : seq < 8) :
+    (run none ((seq * 32 :: L :: d0) :: T)).2 =
+      List.replicate T.length Out.stored ++ [Out.complete P] := by
+  have hm := (segment_main ok hs none (by intro x h; cases h) T (fun f hf => Or.inl hf)).1
+  rw [hm]
+  by_cases hT : T = []
+  · subst hT; simp [specOuts]
+  · have hnd : T.Nodup := by
+      have := ok.sorted
+      unfold List.Nodup
+      exact this.imp (fun {a b} h e => by subst e; omega)
+    have := specOuts_inorder T P (seq * 32 :: L :: d0) hnd (head_not_mem ok _) T [] (by simp) hT
+    rw [this, if_neg hT]
+    have : T.length = (T.length - 1) + 1 := by
+      have := List.length_pos_iff.2 hT; omega
+    conv => rhs; rw [this, List.replicate_succ]
+    simp
+
+theorem frames_concat (seq : Nat) (P : Bytes) : ∃ init a, frames seq P = init ++ [a] := by
+  have hne : frames seq P ≠ [] := by simp [frames]
+  exact ⟨_, _, (List.dropLast_concat_getLast hne).symm⟩
+
+theorem framesPad_length (seq : Nat) (P pad : Bytes) :
+    (framesPad seq P pad).length = (frames seq P).length := by
+  obtain ⟨init, a, h⟩ := frames_concat seq P
+  rw [framesPad_of_concat h, h]
+  simp
+
+theorem framesPad_lengths (seq : Nat) (P pad pad' : Bytes) (hl : pad.length = pad'.length) :
+    (framesPad seq P pad).map List.length = (framesPad seq P pad').map List.length := by
+  obtain ⟨init, a, h⟩ := frames_concat seq P
+  rw [framesPad_of_concat h, framesPad_of_concat h]
+  simp [hl]
+
+theorem inorder_outs (seq : Nat) (P pad : Bytes) (hs : seq < 8) (hP : P.length ≤ 223)
+    (hpad : ∀ f ∈ framesPad seq P pad, f.length ≤ 8) :
+    (run none (framesPad seq P pad)).2 =
+      List.replicate ((frames seq P).length - 1) Out.stored ++ [Out.complete P] := by
+  obtain ⟨d0, T, hF, ok⟩ := framesPad_seg seq P pad hs hP hpad
+  have hlen := framesPad_length seq P pad
+  rw [hF] at hlen ⊢
+  rw [segment_inorder ok hs, ← hlen]
+  simp
+
+theorem padding_independent (seq : Nat) (P pad pad' : Bytes) (hs : seq < 8) (hP : P.length ≤ 223)
+    (hl : pad.length = pad'.length) (hpad : ∀ f ∈ framesPad seq P pad, f.length ≤ 8) :
+    (run none (framesPad seq P pad)).2 = (run none (framesPad seq P pad')).2 := by
+  have hpad' : ∀ f ∈ framesPad seq P pad', f.length ≤ 8 := by
+    intro f hf
+    have h1 : f.length ∈ (framesPad seq P pad').map List.length := List.mem_map.2 ⟨f, hf, rfl⟩
+    rw [← framesPad_lengths seq P pad pad' hl] at h1
+    obtain ⟨g, hg, e⟩ := List.mem_map.1 h1
+    rw [← e]
+    exact hpad g hg
+  rw [inorder_outs seq P pad hs hP hpad, inorder_outs seq P pad' hs hP hpad']
+
 end L04
 end N2k.Fast
